@@ -178,8 +178,9 @@ fn impl_weight(d: u64, a: u128) -> Option<u128> {
 
 pub fn run(args: &Args) {
     let mut out = Out::new(&args.out);
-    out.rule = "histories: non-trivial = at least two addresses held weight, a snapshot was taken in at least two epochs and at least one claim paid something; \
-                distinct by hash of the op list. weight stream: non-trivial = result strictly greater than the amount (rounding multiplier applied)".into();
+    out.rule = "histories: non-trivial = an OpenPosition, a Snapshot and a Claim succeeded in the history; distinct by hash of the op list \
+                (how many claims paid something is in the histogram: claim:paid_something). weight stream: non-trivial = result strictly greater than the \
+                amount (multiplier applied), distinct by (duration, amount)".into();
     // Rng::new seeds linearly (seed s+1 is seed s shifted by one draw); decorrelate the seeds of this property
     let mut rng = Rng::new(hash64(&[args.seed as u128, 0xC13_5EED]));
     let focus = focus_c13();
@@ -239,8 +240,6 @@ pub fn run(args: &Args) {
         let mut focus_i = focus.clone();
         focus_i.big_amounts = i % 3 == 0;
         if let Some(r) = run_case(&mut out, &mut rng, &cfg, pre, len, &focus_i, "C13", "generated", &mut extra) {
-            let claims_paid = out.hist.get("claim:paid_something").copied().unwrap_or(0);
-            let _ = claims_paid;
             if r.kinds.contains("Claim") && r.kinds.contains("Snapshot") && r.kinds.contains("OpenPosition") { out.nontrivial_key(hash_str(&coq_ops(&r.ops))); }
             if i < 2 { out.sample(json!({"tag": "generated", "cfg": cfg, "ops": r.ops})); }
             emit_case(&mut out, "inc", idx, NSTREAMS, &cfg, &r, "generated");
